@@ -503,12 +503,17 @@ func attPayload(d *attester.Duty) string {
 	return List(items)
 }
 
-func (a *recAttester) Attest(_ context.Context, duty *attester.Duty) ([]*phase0.Attestation, error) {
+// Attest on a context that is done attests to nothing (the real attester's requests and signatures
+// all fail), so nothing is logged.
+func (a *recAttester) Attest(ctx context.Context, duty *attester.Duty) ([]*phase0.Attestation, error) {
 	a.w.mu.Lock()
 	defer a.w.mu.Unlock()
 	if a.w.peek {
 		a.w.peekPay = append(a.w.peekPay, attPayload(duty))
 		return nil, nil
+	}
+	if err := ctx.Err(); err != nil {
+		return nil, err
 	}
 	a.w.attLog = append(a.w.attLog, Pair(N(uint64(duty.Slot())), attPayload(duty)))
 	return nil, nil
@@ -520,13 +525,16 @@ type recProposer struct{ w *world }
 // Prepare fails on a context that is done, as the real one does (it asks the account manager and a
 // possibly remote signer for the RANDAO reveal with that context).
 func (p *recProposer) Prepare(ctx context.Context, _ *beaconblockproposer.Duty) error { return ctx.Err() }
-func (p *recProposer) Propose(_ context.Context, duty *beaconblockproposer.Duty) {
+func (p *recProposer) Propose(ctx context.Context, duty *beaconblockproposer.Duty) {
 	p.w.mu.Lock()
 	defer p.w.mu.Unlock()
 	pay := List([]string{triple(uint64(duty.ValidatorIndex()), 0, 0)})
 	if p.w.peek {
 		p.w.peekPay = append(p.w.peekPay, pay)
 		return
+	}
+	if ctx.Err() != nil {
+		return // proposing on a context that is done proposes nothing
 	}
 	p.w.propLog = append(p.w.propLog, Pair(N(uint64(duty.Slot())), pay))
 }
@@ -987,6 +995,11 @@ func runHist(t *testing.T, h *Hist, level zerolog.Level) (term string, nontrivia
 		} else {
 			reorg = "(0, 0, 0)"
 		}
+		// Fake time stops when this function returns and a goroutine still waiting for a timer then
+		// counts as a deadlock of the bubble.  The controller leaves none behind; code that bounds a
+		// context (context.WithTimeout) and lets it run out does: let every such timer fire.
+		time.Sleep(50 * 365 * 24 * time.Hour)
+		synctest.Wait()
 	})
 	ops := make([]string, 0, len(h.Ops))
 	for _, op := range h.Ops {
